@@ -458,6 +458,8 @@ impl UntypedProgram {
             }
         }
         let mut struct_defs = HashMap::with_capacity(self.struct_defs.len());
+        #[cfg(feature = "verif_hooks")]
+        crate::verif_hooks::hash_iter("check::struct_defs", self.struct_defs.keys());
         for (struct_name, struct_def) in self.struct_defs.iter() {
             let meta = struct_def.meta;
             let mut fields = Vec::with_capacity(struct_def.fields.len());
@@ -470,6 +472,8 @@ impl UntypedProgram {
             struct_defs.insert(struct_name.clone(), StructDef { fields, meta });
         }
         let mut enum_defs = HashMap::with_capacity(self.enum_defs.len());
+        #[cfg(feature = "verif_hooks")]
+        crate::verif_hooks::hash_iter("check::enum_defs", self.enum_defs.keys());
         for (enum_name, enum_def) in self.enum_defs.iter() {
             let meta = enum_def.meta;
             let mut variants = Vec::with_capacity(enum_def.variants.len());
@@ -493,6 +497,8 @@ impl UntypedProgram {
 
         let mut untyped_defs = Defs::new(&const_types, &struct_defs, &enum_defs);
         let mut checked_fn_defs = TypedFns::new();
+        #[cfg(feature = "verif_hooks")]
+        crate::verif_hooks::hash_iter("check::fn_defs", self.fn_defs.keys());
         for (fn_name, fn_def) in self.fn_defs.iter() {
             untyped_defs.fns.insert(fn_name, fn_def);
         }
